@@ -2,6 +2,7 @@
 #include <stddef.h>
 #include <string.h>
 #include <wchar.h>
+#include <stdlib.h>
 int fx8_good(wchar_t *dest, size_t dmax, const wchar_t *src) {
     if (!dest || !src || !dmax) return 1;
     while (dmax > 0) { *dest = *src; if (*dest == 0) { memset(dest, 0, dmax * sizeof(wchar_t)); return 0; } dmax--; dest++; src++; }
@@ -25,5 +26,23 @@ int fx8_loop_short(char *dest, size_t dmax, const char *src) {            /* the
 int fx8_loop_good(char *dest, size_t dmax, const char *src) {
     if (!dest || !src || !dmax) return 1;
     while (dmax > 0) { *dest = *src; if (*dest == 0) { while (dmax) { *dest = 0; dmax--; dest++; } return 0; } dmax--; dest++; src++; }
+    return 2;
+}
+/* start of the clearing: converter returning the count of bytes stored */
+int fx8_conv_good(char *dest, size_t dmax, const wchar_t *src, size_t len) {
+    if (!dest || !src || !dmax || dmax > 4096) return 1;
+    size_t l = wcstombs(dest, src, len);
+    if (l < dmax) { memset(&dest[l], 0, dmax - l); return 0; }
+    return 2;
+}
+int fx8_conv_gap(char *dest, size_t dmax, const wchar_t *src, size_t len) {   /* "dest[l] already holds the NUL": not when len cut the conversion short */
+    if (!dest || !src || !dmax || dmax > 4096) return 1;
+    size_t l = wcstombs(dest, src, len);
+    if (l < dmax) { memset(&dest[l + 1], 0, dmax - l - 1); return 0; }
+    return 2;
+}
+int fx8_loop_gap(char *dest, size_t dmax, const char *src) {                  /* clearing starts two elements behind the cursor */
+    if (!dest || !src || dmax < 4) return 1;
+    while (dmax > 2) { *dest = *src; if (*dest == 0) { memset(dest + 2, 0, dmax - 2); return 0; } dmax--; dest++; src++; }
     return 2;
 }
